@@ -56,6 +56,7 @@ type State struct {
 	qdone  map[string]bool
 	trace  *readTrace
 	cut    bool
+	onceDone map[string]bool
 	validCache map[string]bool // conditions proved valid under a prefix of pc
 	invalidAt  map[string]int  // conditions found not valid at this pc length
 	goal   bool   // evaluating a contract clause as a proof goal (Forall may be skolemised)
@@ -148,6 +149,12 @@ func (s *State) clone() *State {
 		n.validCache = make(map[string]bool, len(s.validCache))
 		for k := range s.validCache {
 			n.validCache[k] = true
+		}
+	}
+	if len(s.onceDone) > 0 {
+		n.onceDone = make(map[string]bool, len(s.onceDone))
+		for k := range s.onceDone {
+			n.onceDone[k] = true
 		}
 	}
 	if len(s.qfActive) > 0 {
@@ -386,6 +393,10 @@ func (s *State) freshVal(t types.Type, hint string) Val {
 			s.assumeT(ULt(r, alloc0))
 		}
 		return PtrHeap{Ref: r, Root: u.Elem()}
+	case *types.Chan:
+		return ChanV{ID: Sym(fresh(hint+"_chid"), 64), Cap: Sym(fresh(hint+"_chcap"), 64)}
+	case *types.Signature:
+		return FuncSym{ID: Sym(fresh(hint+"_fn"), 64), Name: hint}
 	case *types.Interface:
 		if isError(t) {
 			return ErrV{NonNil: Sym(fresh(hint+"_nonnil"), 0), ID: Sym(fresh(hint+"_id"), 64)}
@@ -448,6 +459,8 @@ func zeroVal(t types.Type) Val {
 			return ErrV{NonNil: tFalse, ID: BVu(0, 64)}
 		}
 		return IfaceV{}
+	case *types.Chan:
+		return ChanV{ID: BVu(0, 64), Cap: BVu(0, 64)}
 	}
 	return NilV{T: t}
 }
